@@ -178,6 +178,23 @@ def money2(x):
     return "$" + f"{abs(x):,.2f}"
 
 
+def figure_ok(text, value):
+    """Does the printed text show `value`? The number of decimals (0-2), blanks, thousands separators and a redundant '+' are the
+    format's own business; the sign and every printed digit are not."""
+    if text is None:
+        return False
+    t = re.sub(r"[\s$,*|+]", "", text)
+    m = re.fullmatch(r"(-?)(\d+)(?:\.(\d{1,2}))?", t.replace("-", "", 1) if t.startswith("-") else t)
+    if not m:
+        return False
+    d = len(m.group(3) or "")
+    try:
+        got = float(t)
+    except ValueError:
+        return False
+    return got == float(f"{value:.{d}f}")
+
+
 def check_case(case):
     from tally.analyzer import (analyze_transactions, classify_by_sections, compute_section_totals, export_json, export_markdown, print_summary,
                                 print_sections_summary, write_summary_file_vue)
@@ -240,37 +257,35 @@ def check_case(case):
         s = render(f"markdown -v{v}", lambda v=v: export_markdown(stats, verbose=v))
         if s is None:
             continue
-        want_lines = [f"| Income | +{money2(ref['income'])} |", f"| Spending | {'-' if ref['spending'] > 0 else ''}{money2(ref['spending'])} |",
-                      f"| Credits/Refunds | +{money2(ref['credits'])} |",
-                      f"| **Net Cash Flow** | **{'+' if ref['cash_flow'] >= 0 else '-'}{money2(ref['cash_flow'])}** |",
-                      f"| In | +{money2(ref['transfer_in'])} |", f"| Out | {money2(ref['transfer_out'])} |",
-                      f"| **Net Transfers** | **{'+' if ref['transfers_net'] >= 0 else '-'}{money2(ref['transfers_net'])}** |"]
-        for wl in want_lines:
-            if wl not in s:
-                viol.append({"kind": "figure-differs", "detail": {"output": f"markdown -v{v}", "expected_line": wl,
-                                                                  "got_lines": [l for l in s.splitlines() if l.startswith("| " + wl.split("|")[1].strip())][:2]}})
+        for lab, val in (("| Income |", ref["income"]), ("| Spending |", -ref["spending"]), ("| Credits/Refunds |", ref["credits"]),
+                         ("| **Net Cash Flow** |", ref["cash_flow"]), ("| In |", ref["transfer_in"]), ("| Out |", -ref["transfer_out"]),
+                         ("| **Net Transfers** |", ref["transfers_net"])):
+            line = next((l for l in s.splitlines() if l.startswith(lab)), None)
+            cell = line[len(lab):] if line else None
+            # spending and transfers-out are printed as outflows; a format may show them with or without the minus sign
+            if not (figure_ok(cell, val) or (val <= 0 and lab in ("| Spending |", "| Out |") and figure_ok(cell, -val))):
+                viol.append({"kind": "figure-differs", "detail": {"output": f"markdown -v{v}", "figure": lab, "expected_value": val, "got_line": line}})
     # ---- text summaries
     s = render("summary", lambda: print_summary(stats, year=2025))
     if s is not None:
-        for lab, val in (("Income:", "+" + money0(ref["income"])), ("Spending:", "-" + money0(ref["spending"])), ("Credits/Refunds:", "+" + money0(ref["credits"])),
-                         ("Net Cash Flow:", ("+" if ref["cash_flow"] >= 0 else "") + money0(ref["cash_flow"])), ("In:", "+" + money0(ref["transfer_in"])),
-                         ("Out:", money0(ref["transfer_out"])), ("Net Transfers:", ("+" if ref["transfers_net"] >= 0 else "") + money0(ref["transfers_net"]))):
+        for lab, val in (("Income:", ref["income"]), ("Spending:", -ref["spending"]), ("Credits/Refunds:", ref["credits"]),
+                         ("Net Cash Flow:", ref["cash_flow"]), ("In:", ref["transfer_in"]), ("Out:", -ref["transfer_out"]),
+                         ("Net Transfers:", ref["transfers_net"])):
             line = next((l for l in s.splitlines() if l.startswith(lab)), None)
-            got = re.sub(r"\s+", "", line[len(lab):]) if line else None
-            if got != val:
-                viol.append({"kind": "figure-differs", "detail": {"output": "summary", "figure": lab, "expected": val, "got_line": line}})
+            cell = line[len(lab):] if line else None
+            if not (figure_ok(cell, val) or (val <= 0 and lab in ("Spending:", "Out:") and figure_ok(cell, -val))):
+                viol.append({"kind": "figure-differs", "detail": {"output": "summary", "figure": lab, "expected_value": val, "got_line": line}})
     if case["views"]:
         s = render("views-summary", lambda: print_sections_summary(stats, year=2025))
         if s is not None:
-            exp = [("Income:", "+" + money0(ref["income"])), ("Spending:", "-" + money0(ref["spending"])),
-                   ("Cash Flow:", ("+" if ref["cash_flow"] >= 0 else "") + money0(ref["cash_flow"]))]
+            exp = [("Income:", ref["income"]), ("Spending:", -ref["spending"]), ("Cash Flow:", ref["cash_flow"])]
             if ref["credits"] > 0:
-                exp.append(("Credits:", "+" + money0(ref["credits"])))
+                exp.append(("Credits:", ref["credits"]))
             for lab, val in exp:
                 line = next((l for l in s.splitlines() if l.strip().startswith(lab)), None)
-                got = re.sub(r"\s+", "", line.strip()[len(lab):]) if line else None
-                if got != val:
-                    viol.append({"kind": "figure-differs", "detail": {"output": "views-summary", "figure": lab, "expected": val, "got_line": line}})
+                cell = line.strip()[len(lab):] if line else None
+                if not (figure_ok(cell, val) or (val <= 0 and lab == "Spending:" and figure_ok(cell, -val))):
+                    viol.append({"kind": "figure-differs", "detail": {"output": "views-summary", "figure": lab, "expected_value": val, "got_line": line}})
     # ---- HTML
     for embedded in (True, False):
         label = "html-embedded" if embedded else "html-separate"
